@@ -12,6 +12,7 @@ acceptor over the recorded event trace.
 from __future__ import annotations
 
 import contextlib
+import functools
 import io
 import itertools
 import logging
@@ -423,7 +424,13 @@ def run_alarms(loopname, order, remove, where):
         raise ExitMainLoop
 
     for rank in order:
-        H[rank] = evl.alarm(rank * 0.5, make(rank))
+        cb = make(rank)
+        # callbacks need not be plain functions: every second one is a functools.partial (no __name__), every third a callable object
+        if rank % 3 == 0:
+            cb = _Callable(cb)
+        elif rank % 2 == 0:
+            cb = functools.partial(cb)
+        H[rank] = evl.alarm(rank * 0.5, cb)
     evl.alarm(len(order) * 0.5 + 2.0, end)
     if where == "pre" and remove is not None:
         do_rm()
@@ -444,6 +451,14 @@ def run_alarms(loopname, order, remove, where):
                 closer()
         logging.disable(logging.NOTSET)
     return fired, rm, res
+
+
+class _Callable:
+    def __init__(self, fn):
+        self.fn = fn
+
+    def __call__(self, *a):
+        return self.fn(*a)
 
 
 def judge_alarms(loopname, order, remove, where, fired, rm, res):
@@ -581,6 +596,83 @@ def prerun_task(task, ctx: Ctx):
                         ctx.violation(clause, f"C13/{clause}/{loopname}/{feat}", {"part": "prerun", "loop": loopname, "rm_watch": list(rm_watch), "rm_idle": list(rm_idle)}, detail + f"; calls {calls}")
 
 
+# ---------------------------------------------------------------------- part 4: two event-loop objects over one underlying loop
+def twin_task(task, ctx: Ctx):
+    """asyncio / tornado: two urwid event-loop objects created over the same underlying loop, in either order; the one that runs must behave as if alone:
+    Boom raised by its alarm leaves its run(), ExitMainLoop ends it silently, and the other object's later run is clean"""
+    (loopname,) = task
+    env.reset("utf-8")
+    for first_created in ("A", "B"):
+        for kind in ("boom", "exit"):
+            ctx.count("evaluations")
+            case = {"part": "twins", "loop": loopname, "created_first": first_created, "kind": kind}
+            logging.disable(logging.CRITICAL)
+            w = World(())
+            try:
+                if loopname == "asyncio":
+                    from urwid.event_loop.asyncio_loop import AsyncioEventLoop
+                    from ..virt.loops import VLoop
+
+                    base = VLoop(w)
+                    mk = lambda: AsyncioEventLoop(loop=base)  # noqa: E731
+                    closer = base.close
+                else:
+                    from tornado.platform.asyncio import AsyncIOLoop
+                    from urwid.event_loop.tornado_loop import TornadoEventLoop
+                    from ..virt.loops import VLoop
+                    import asyncio as _a
+
+                    base = VLoop(w)
+                    _a.set_event_loop(base)
+                    io_ = AsyncIOLoop(asyncio_loop=base)
+                    io_.time = lambda: w.t
+                    mk = lambda: TornadoEventLoop(io_)  # noqa: E731
+
+                    def closer():
+                        io_.close(all_fds=False)
+                        _a.set_event_loop(None)
+
+                objs = {}
+                for n_ in (("A", "B") if first_created == "A" else ("B", "A")):
+                    objs[n_] = mk()
+                log = []
+
+                def raiser():
+                    log.append("a1")
+                    raise Boom("twin") if kind == "boom" else ExitMainLoop()
+
+                def ender():
+                    log.append("b1")
+                    raise ExitMainLoop
+
+                objs["A"].alarm(0.5, raiser)
+                res = []
+                for who, fn in (("A", None), ("B", ender)):
+                    if fn is not None:
+                        objs[who].alarm(0.5, fn)
+                    try:
+                        with contextlib.redirect_stdout(io.StringIO()), contextlib.redirect_stderr(io.StringIO()):
+                            objs[who].run()
+                        res.append("ok")
+                    except Boom:
+                        res.append("Boom")
+                    except Horizon as e:
+                        res.append(f"HORIZON:{e}")
+                    except BaseException as e:  # noqa: BLE001
+                        res.append(f"EXC:{exc_site(e)}")
+            finally:
+                logging.disable(logging.NOTSET)
+                with contextlib.suppress(Exception):
+                    closer()
+            want = ["Boom" if kind == "boom" else "ok", "ok"]
+            ctx.obs(loopname, first_created, kind, res, log)
+            if res != want:
+                ctx.violation("raise-once" if kind == "boom" else "exit-silent", f"C13/{'raise-once' if kind == 'boom' else 'exit-silent'}/{loopname}/two-loop-objects", case,
+                              f"two {loopname} event-loop objects over one underlying loop ({first_created} created first): A.run() with an alarm raising {kind}, then B.run() ended by ExitMainLoop gave {res}, expected {want}; callbacks {log}")
+            else:
+                ctx.distinct("nontrivial", (loopname, "twins", first_created, kind))
+
+
 def alarm_orders(nmax):
     return [p for n in range(1, nmax + 1) for p in itertools.permutations(range(1, n + 1))]
 
@@ -614,6 +706,7 @@ def run(tier, R):
             atasks.append((loopname, orders[i : i + 400]))
     R.run_tasks(alarm_task, atasks, recheck=0.02, task_timeout=1800)
     R.run_tasks(prerun_task, [(ln,) for ln in LOOPS], recheck=0.0, task_timeout=600)
+    R.run_tasks(twin_task, [("asyncio",), ("tornado",)], recheck=0.0, task_timeout=600)
     ev = int(R.ctx.counts["evaluations"])
     nt = len(R.ctx.sets.get("nontrivial", ()))
     cov = {
@@ -627,7 +720,7 @@ def run(tier, R):
         f"schedule with at most {2 if tier == 'quick' else 3} deviations (trio: {1 if tier == 'quick' else 2}) from the default environment answer (which readable descriptors a wait "
         "reports, in which order; trio: batch reversal per scheduler tick); each execution judged by the contract acceptor. Part 2: every registration order of n alarms with distinct due "
         f"times (n up to {ALARM_NMAX[tier]}), with no removal, each alarm removed before run(), and each alarm removed from the callback of the earliest other alarm: firing order, firing "
-        "times and remove_alarm results. Part 3: three readable watches and two idle callbacks registered before run(), every subset of them removed again before run(). non-trivial = distinct (loop, program, callback trace, result)",
+        "times and remove_alarm results. Part 3: three readable watches and two idle callbacks registered before run(), every subset of them removed again before run(); alarm callbacks are plain functions, functools.partial objects and callable instances. Part 4: two asyncio / tornado event-loop objects over one underlying loop, created in either order. non-trivial = distinct (loop, program, callback trace, result)",
         "exhaustive": True,
         "bound": {"deviations": 2 if tier == "quick" else 3, "trio_deviations": 1 if tier == "quick" else 2},
         "distinct_outcome_sets": len(R.ctx.sets.get("outcomes", ())),
